@@ -163,8 +163,23 @@ def run(P: Program, R: Report, tier: str) -> None:
                             q = P.resolve_name(g.module, s.func.id) if isinstance(s.func, ast.Name) else None
                             if q in P.functions and P.functions[q] in fr.funcs:
                                 ok = True
+                            # numpy writers whose first argument is the array written
+                            if call_name(s) in ("copyto", "putmask", "place", "put") and s.args and (s.args[0] is n or any(y is n for y in ast.walk(s.args[0]))):
+                                ok = True
+                        # metadata of the destination (dtype / shape) says nothing about its content
+                        if isinstance(s, ast.Attribute) and s.value is n and s.attr in ("dtype", "shape", "ndim", "size"):
+                            ok = True
                     R.check(ok, "R13.1", g, n, f"{g.short}: the destination is only written, handed on or returned - never read",
                             f"`{n.id}` is read at line {n.lineno}", via="fresh-destination")
+        if n_w == 0:
+            for g in fr.funcs:
+                for c_ in ast.walk(g.node):
+                    if isinstance(c_, ast.Call) and call_name(c_) in ("copyto", "putmask", "place") and c_.args:
+                        base = fr.role(g, c_.args[0])
+                        if base is not None and base[0] == "dest":
+                            n_w += 1
+                            R.undecided("R13.1", g, c_, f"{g.short}: what is written into the destination is computed from the source array only",
+                                        f"written through `{norm(c_)[:70]}`: not followed")
         R.floor("R13.1", "mask writes", n_w, 1)
         # time points come from the nodes' time values, one boolean mask selects from both id arrays
         loops = [lp for lp in ast.walk(f.node) if isinstance(lp, ast.For) and "time_values" in norm(lp.iter)]
@@ -181,46 +196,10 @@ def run(P: Program, R: Report, tier: str) -> None:
                     f"arrays selected with `{m}`: {sorted(used)}", via="provenance")
 
     fresh_destination_rules()
-    # ---- R13.3 joint offset
-    rs = Resolver(P, f)
-    ifs = [i for i in ast.walk(f.node) if isinstance(i, ast.If) and "0 in node_ids" in rs.text(i.test)]
-    if not ifs:
-        R.fail("R13.3", f, f.node, "the shift is made when node id 0 is present", "no branch on `0 in node_ids`")
-    for i in ifs:
-        body = ast.Module(i.body, [])
-        rel = [c for c in ast.walk(body) if isinstance(c, ast.Call) and call_name(c) == "relabel_nodes"]
-        shift = [s for s in ast.walk(body) if isinstance(s, ast.Assign) and norm(s.targets[0]) == "node_ids" and isinstance(s.value, ast.BinOp) and isinstance(s.value.op, ast.Add) and norm(s.value.left) == "node_ids"]
-        R.check(bool(rel) and bool(shift), "R13.3", f, i, "graph relabel and id-array shift happen under the same condition",
-                f"relabel_nodes present: {bool(rel)}, node_ids shifted: {bool(shift)}: graph and segmentation would disagree about the ids", via="pairing")
-        if rel and shift:
-            k_arr = rs.text(shift[0].value.right)
-            # the amount added to the graph names: `<name> + K` inside the mapping construction
-            adds = {rs.text(b.right) for b in ast.walk(body) if isinstance(b, ast.BinOp) and isinstance(b.op, ast.Add) and b is not shift[0].value}
-            if not adds:
-                R.undecided("R13.3", f, i, "the amount added to the graph node names", "shape not recognised")
-            else:
-                R.check(adds == {k_arr}, "R13.3", f, i, f"graph names and id array are shifted by the same amount ({k_arr})",
-                        f"graph names shifted by {sorted(adds)}, id array by {k_arr}", via="pairing")
-            inplace = all(any(k.arg == "copy" and norm(k.value) == "False" for k in c.keywords) for c in rel)
-            R.check(inplace, "R13.3", f, rel[0], "the caller's graph is relabelled in place", "", via="syntax")
+    # ---- R13.3 joint offset (in relabel_segmentation or in a helper that receives the graph and the id array)
+    joint_offset(P, R, f)
     # ---- R13.4 shortcut
-    h = P.func_named("handle_segmentation", "TracksBuilder")
-    hr = Resolver(P, h)
-    calls = [s for s in ast.walk(h.node) if isinstance(s, ast.Assign) and isinstance(s.value, ast.Call) and call_name(s.value) == "relabel_segmentation"] + [
-        s for s in ast.walk(h.node) if isinstance(s, ast.Return) and s.value is not None and any(isinstance(c, ast.Call) and call_name(c) == "relabel_segmentation" for c in ast.walk(s.value))]
-    R.check(len(calls) == 1, "R13.4", h, h.node, "handle_segmentation relabels at one place", f"{len(calls)} call sites", via="syntax")
-    for s in calls:
-        g = [x.replace(" ", "") for x in guards_of(h, s)]
-        eq = [x for x in g if "array_equal(" in x]
-        ok = any(x in ("not(np.array_equal(seg_ids,node_ids))", "not(np.array_equal(node_ids,seg_ids))", "notnp.array_equal(seg_ids,node_ids)", "notnp.array_equal(node_ids,seg_ids)") for x in eq)
-        R.check(ok and len(eq) == 1, "R13.4", h, s, "relabelling is skipped only when seg ids and node ids agree position by position",
-                f"path condition of the relabel call involves {eq or 'no array_equal test'}: a permuted assignment over the same values could skip relabelling", via="guard-shape")
-        c = next(c for c in ast.walk(s) if isinstance(c, ast.Call) and call_name(c) == "relabel_segmentation")
-        R.check([norm(a) for a in c.args][2:] == ["node_ids", "seg_ids", "time_values"], "R13.4", h, c,
-                "relabel_segmentation receives node ids, seg ids and times in its parameter order", norm(c)[:100], via="dataflow")
-    defs = {n: hr.text(ast.Name(n, ast.Load())) for n in ("node_ids", "seg_ids")}
-    R.check("node_ids" in defs["node_ids"] and ("seg_id" in defs["seg_ids"] or "SEG_KEY" in defs["seg_ids"]), "R13.4", h, h.node,
-            "the compared arrays are the loaded node ids and seg ids", str(defs), via="provenance")
+    shortcut_condition(P, R)
     # ---- R13.5 each frame is relabelled with a mapping built for THAT frame only
     frame_local_lookup(P, R, P.func_named("relabel_segmentation"), "R13.5")
 
@@ -233,7 +212,15 @@ def frame_local_lookup(P: Program, R: Report, f: FuncInfo, rule: str) -> None:
     rets = {norm(r.value) for r in ast.walk(f.node) if isinstance(r, ast.Return) and r.value is not None}
     loops = [lp for lp in f.node.body if isinstance(lp, ast.For)] or [lp for lp in ast.walk(f.node) if isinstance(lp, ast.For)]
     n = 0
+    # aliases of (parts of) the returned array
+    dest_names = {r.strip() for r in rets}
+    for s_ in ast.walk(f.node):
+        if isinstance(s_, ast.Assign) and any(isinstance(x, ast.Name) and x.id in dest_names for x in ast.walk(s_.value)) and isinstance(s_.value, (ast.Subscript, ast.Name)):
+            dest_names |= {t.id for t in s_.targets if isinstance(t, ast.Name)}
     for lp in loops:
+        # only loops in which frames of the result are produced
+        if not any(isinstance(x, ast.Name) and x.id in dest_names for x in ast.walk(lp)):
+            continue
         inplace: dict[str, ast.AST] = {}
         rebound: set[str] = set()
         for s in ast.walk(lp):
@@ -265,3 +252,96 @@ def frame_local_lookup(P: Program, R: Report, f: FuncInfo, rule: str) -> None:
                     "so a label that repeats in a later frame without a node there is painted with the earlier node's id", via="loop-carried-state")
     if n == 0:
         R.ok(rule, f, f.node, f"{f.short}: no table that outlives an iteration is filled inside the frame loop", via="loop-carried-state")
+
+
+def joint_offset(P: Program, R: Report, f: FuncInfo) -> None:
+    """If node id 0 forces a shift, the graph's node names and the id array move together, by the same amount, under
+    the same condition; the caller's graph is relabelled in place."""
+    holders = [f]
+    for c in ast.walk(f.node):
+        if isinstance(c, ast.Call) and isinstance(c.func, ast.Name):
+            g = P.functions.get(P.resolve_name(f.module, c.func.id) or "")
+            if g is not None and g not in holders:
+                holders.append(g)
+    holders = [g for g in holders if any(isinstance(c, ast.Call) and call_name(c) == "relabel_nodes" for c in ast.walk(g.node))]
+    if not holders:
+        R.fail("R13.3", f, f.node, "node id 0 is shifted off the background label in graph and id array together", "no relabel_nodes call found")
+        return
+    for g in holders:
+        rs = Resolver(P, g)
+        rel = [c for c in ast.walk(g.node) if isinstance(c, ast.Call) and call_name(c) == "relabel_nodes"]
+        # statements that produce the shifted id array:  ids = ids + K   /   return ids + K
+        shifts = [x for x in ast.walk(g.node) if isinstance(x, (ast.Assign, ast.Return)) and isinstance(x.value, ast.BinOp) and isinstance(x.value.op, ast.Add)
+                  and isinstance(x.value.left, ast.Name) and "id" in x.value.left.id and not isinstance(x.value.right, (ast.Dict,))
+                  and not any(isinstance(p_, (ast.DictComp,)) for p_ in ast.walk(x.value))]
+        R.check(bool(shifts), "R13.3", g, rel[0], "graph relabel and id-array shift happen together",
+                "relabel_nodes is present but the id array is not shifted: graph and segmentation would disagree about the ids", via="pairing")
+        if not shifts:
+            continue
+        # same condition: the relabel and the shift have the same guards
+        g_rel = sorted(x.replace(" ", "") for x in guards_of(g, _stmt_of(g, rel[0])))
+        g_sh = sorted(x.replace(" ", "") for x in guards_of(g, shifts[0]))
+        R.check(g_rel == g_sh, "R13.3", g, shifts[0], "graph relabel and id-array shift happen under the same condition",
+                f"relabel under {g_rel}, shift under {g_sh}", via="pairing")
+        cond_txt = " ".join(g_rel)
+        zero_test = any(t in cond_txt for t in ("0in", "==0", "offset")) or not g_rel
+        if zero_test and g_rel:
+            R.ok("R13.3", g, rel[0], "the shift is made when node id 0 is present", cond_txt[:80], via="guard-shape")
+        else:
+            R.undecided("R13.3", g, rel[0], "the shift is made when node id 0 is present", f"condition `{cond_txt[:80]}` not recognised")
+        k_arr = rs.text(shifts[0].value.right)
+        adds = {rs.text(b_.right) for b_ in ast.walk(g.node) if isinstance(b_, ast.BinOp) and isinstance(b_.op, ast.Add) and b_ is not shifts[0].value
+                and not (isinstance(b_.left, ast.Name) and b_.left is shifts[0].value.left)}
+        adds = {a_ for a_ in adds if a_}
+        if not adds:
+            R.undecided("R13.3", g, rel[0], "the amount added to the graph node names", "shape not recognised")
+        else:
+            R.check(adds == {k_arr}, "R13.3", g, rel[0], f"graph names and id array are shifted by the same amount ({k_arr})",
+                    f"graph names shifted by {sorted(adds)}, id array by {k_arr}", via="pairing")
+        inplace = all(any(k.arg == "copy" and norm(k.value) == "False" for k in c.keywords) for c in rel)
+        R.check(inplace, "R13.3", g, rel[0], "the caller's graph is relabelled in place", "", via="syntax")
+
+
+def _stmt_of(g: FuncInfo, node: ast.AST):
+    best = None
+    for s_ in ast.walk(g.node):
+        if isinstance(s_, ast.stmt) and not isinstance(s_, (ast.If, ast.For, ast.While, ast.With, ast.FunctionDef, ast.Try)) and any(x is node for x in ast.walk(s_)):
+            best = s_
+    return best or node
+
+
+def shortcut_condition(P: Program, R: Report) -> None:
+    h = P.func_named("handle_segmentation", "TracksBuilder")
+    hr = Resolver(P, h)
+    callee = P.func_named("relabel_segmentation")
+    calls = [s for s in ast.walk(h.node) if isinstance(s, (ast.Assign, ast.Return)) and s.value is not None
+             and any(isinstance(c, ast.Call) and call_name(c) == "relabel_segmentation" for c in ast.walk(s.value))]
+    R.check(len(calls) == 1, "R13.4", h, h.node, "handle_segmentation relabels at one place", f"{len(calls)} call sites", via="syntax")
+    for s in calls:
+        c = next(c for c in ast.walk(s) if isinstance(c, ast.Call) and call_name(c) == "relabel_segmentation")
+        bound = {}
+        for p_, a_ in zip(callee.params, c.args, strict=False):
+            bound[p_] = hr.text(a_)
+        for k in c.keywords:
+            if k.arg:
+                bound[k.arg] = hr.text(k.value)
+        t_node, t_seg, t_time = bound.get("node_ids", "?"), bound.get("seg_ids", "?"), bound.get("time_values", "?")
+        R.check("node_ids" in t_node and ("seg_id" in t_seg or "SEG_KEY" in t_seg) and ("TIME" in t_time or "time" in t_time), "R13.4", h, c,
+                "relabel_segmentation receives the loaded node ids, seg ids and times in the matching parameters",
+                f"node_ids={t_node[:50]}, seg_ids={t_seg[:50]}, time_values={t_time[:50]}", via="dataflow")
+        # path condition of the call
+        eq_calls = []
+        for gtxt in guards_of(h, s):
+            try:
+                ge = ast.parse(gtxt, mode="eval").body
+            except SyntaxError:
+                continue
+            neg = isinstance(ge, ast.UnaryOp) and isinstance(ge.op, ast.Not)
+            inner = ge.operand if neg else ge
+            for x in ast.walk(inner):
+                if isinstance(x, ast.Call) and call_name(x) == "array_equal" and len(x.args) == 2:
+                    eq_calls.append((neg and x is inner, {hr.text(x.args[0]), hr.text(x.args[1])}))
+        good = [e for e in eq_calls if e[0] and e[1] == {t_node, t_seg}]
+        R.check(len(good) == 1 and len(eq_calls) == 1, "R13.4", h, s, "relabelling is skipped only when seg ids and node ids agree position by position",
+                f"path condition of the relabel call involves {[sorted(e[1]) for e in eq_calls] or 'no array_equal test'} (negated: {[e[0] for e in eq_calls]}): "
+                "a permuted assignment over the same values could skip relabelling", via="guard-shape")
